@@ -150,7 +150,7 @@ PROPS = {
         'assumptions': ['expected rates chosen so that 2*rate is an integer (window size unambiguous)',
                         'rate compared within 4 ulp; a rate within 8 ulp of a threshold may take either verdict, consistently',
                         'info string must be the default ostream print of the rate (or of a value within 4 ulp of the model rate)'],
-        'tiers': {'quick': {'deadline': 400, 'case_timeout': 200}, 'thorough': {'deadline': 3300, 'case_timeout': 1800}},
+        'tiers': {'quick': {'deadline': 600, 'case_timeout': 400}, 'thorough': {'deadline': 3300, 'case_timeout': 1800}},
         'technique': 'explicit-state model checking of the implementation: BFS over event histories to fixpoint (history replay on fresh objects) + deviation-bounded exhaustive scripts, reference model in lock-step',
         'level_text': 'all reachable product states for window 4 with every event from every state; for windows up to 64 '
                       'every placement of up to k deviations in a steady script; rate, timeout verdict, returned status '
@@ -227,18 +227,20 @@ PROPS = {
         'harness': 'c12_derivatives.cpp',
         'flavour': 'plain',
         'level': 'exploration',
-        'engine': 'lattice',
+        'engine': 'sequence',
         'rule': 'full lattices: (roll x pitch x yaw x angle index) for the rotation derivative matrices and (x vector) for '
                 'dRTdAngles, each against Richardson-extrapolated central differences of the library own R(); (rigid '
                 'transform x attitude x position x covariance) for the pose covariance against J_fd C J_fd^T with J_fd '
                 'from central differences of the library own pose transformation; (estimate size x data size x solver '
                 'x preconditioner x scalar) for the solver covariance against a long-double inverse normal matrix. '
-                'Every case is a distinct linearisation point and counts as non-trivial.',
+                'Explorer S: one SmartRotation3D (three construction forms) through every sequence of 4 (thorough 7) '
+                'operations out of 13 (init with 6 angle triples in both overloads, read of all derivative matrices), '
+                'every read bit-equal to a fresh object. Every case is a distinct linearisation point and counts as non-trivial.',
         'assumptions': ['finite-difference truncation error below 1e-9 for h=1e-4 with Richardson extrapolation (angles O(1))',
                         'a derivative residual that equals exactly the leftover-identity term is classified separately (site suffix .strayIdentityTerm) so that any other derivative error is still a violation'],
         'tiers': {'quick': {'deadline': 300}, 'thorough': {'deadline': 3000}},
-        'technique': 'bounded-exhaustive lattice of linearisation points on the real code, finite-difference oracle built from the implementation own maps',
-        'level_text': 'every linearisation point of the stated lattices (pitch up to pi/2-0.05, 14 rigid transforms, 36 '
+        'technique': 'bounded-exhaustive lattice of linearisation points on the real code with a finite-difference oracle built from the implementation own maps; exhaustive init/read sequences on one rotation object against a fresh object',
+        'level_text': 'every linearisation point of the stated lattices (pitch up to pi/2-0.05, 28 rigid transforms incl. nearly planar ones, 36 '
                       'attitudes, 14 PSD covariances incl. rank-1) compared with finite differences of the implementation '
                       'own maps',
         'level_note': 'lattice values only; finite-difference oracle accuracy 1e-7..1e-6',
@@ -412,19 +414,21 @@ PROPS = {
         'harness': 'c05_lsreg.cpp',
         'flavour': 'plain',
         'level': 'exploration',
-        'engine': 'lattice',
+        'engine': 'sequence',
         'rule': 'full lattice point type (8) x scene (6..500 target points with unit normals spanning the space: box faces, '
                 'circle, sphere, room, mixed fields) x rotation angle/axis x translation x exact/perturbed x correspondence '
                 'mode x overload (fresh, one estimator reused across the whole scene, aligned, preconditioned 1e-3 / 1e3); '
                 'the linearised system is rebuilt from the definition in long double and solved by Householder QR. '
-                'non-trivial = non-zero rotation, perturbed data, non-identity correspondences or a non-default overload.',
-        'assumptions': ['normal-equation accuracy bound 64 p eps kappa(J)^2; systems with kappa(J)^2 >= 1e6 are outside the quantifier, systems that carry no digits in the scalar type (64 p eps kappa^2 > 0.05, e.g. float at scale 1e3) are counted in trivial_skipped',
+                'Explorer S: every sequence of 3 (thorough 6) calls out of 16 (all/half of the points x index-based/aligned x '
+                'plain find / setPreconditioner with scale 1, 0.05, 40 then find) on ONE estimator, every answer compared '
+                'with a fresh estimator. non-trivial = non-zero rotation, perturbed data, non-identity correspondences or a non-default overload.',
+        'assumptions': ['normal-equation accuracy bound 4 p eps kappa(J)^2 (|x|+|Y|/smax); systems with kappa(J)^2 >= 1e6 are outside the quantifier, systems that carry no digits in the scalar type (64 p eps kappa^2 > 0.05, e.g. float at scale 1e3) are counted in trivial_skipped',
                         'preconditioning = same isotropic scale on both sets, no translation, announced through setPreconditioner'],
         'tiers': {'quick': {'deadline': 400, 'case_timeout': 200}, 'thorough': {'deadline': 3000, 'case_timeout': 900}},
-        'technique': 'bounded-exhaustive input/configuration lattice on the real estimator; the defining linear system rebuilt independently and solved by QR in long double',
+        'technique': 'bounded-exhaustive input/configuration lattice plus exhaustive call sequences on one estimator (real code); the defining linear system rebuilt independently and solved by QR in long double, fresh-object differential oracle',
         'level_text': 'complete enumeration of the scene / motion / correspondence / overload lattice for all eight point '
-                      'types; optimality (normal equations), shape of the returned matrix, invariances and estimator reuse '
-                      'decided for every case',
+                      'types; optimality (normal equations), shape of the returned matrix, invariances decided for every '
+                      'case; independence of the call history decided for every sequence of calls up to the stated depth',
         'level_note': 'catalogue values only',
     },
     'C06': {
@@ -486,10 +490,11 @@ ENGINES = [
     {'name': 'lattice', 'path': 'engine/vrun.hpp', 'serves_properties': [],
      'kind_free_text': 'bounded-exhaustive enumeration of a mixed-radix input/configuration lattice over the real code; '
                        'forked shards, per-case watchdog (crash/hang = violation), determinism re-run'},
-    {'name': 'sequence', 'path': 'engine/seq.hpp', 'serves_properties': [],
+    {'name': 'sequence', 'path': 'engine/vrun.hpp', 'serves_properties': [],
      'kind_free_text': 'explicit-state breadth-first search over operation sequences of the real object with a reference '
                        'model in lock-step; canonical product state hashed; to fixpoint where finite, else to stated depth; '
-                       'deviation-bounded long runs'},
+                       'exhaustive sequences without de-duplication; deviation-bounded long runs. The search loops live in '
+                       'harness/cNN_*.cpp on top of the case runner engine/vrun.hpp'},
     {'name': 'schedule', 'path': 'engine/sched', 'serves_properties': [],
      'kind_free_text': 'preemption-bounded stateless exploration of real threads under a serialising scheduler hooked at '
                        'mutex/atomic operations, ThreadSanitizer + linearizability oracle per schedule'},
